@@ -571,7 +571,8 @@ def run_dora_requests(ctx, exe, ids, reqs, singles):
     per_class = int(ctx.opts.get("dora_refusals_per_class", ctx.pick(1, 2)))
 
     def cls(r):
-        return (r.name, A.shape(r.meth.kinds, r.ops))
+        # coarse class for the refusal bookkeeping: the alignment part of the integer classes is dropped
+        return (r.name, re.sub(r"z\d", "", A.shape(r.meth.kinds, r.ops)))
 
     def worker(chunk):
         procs = 0
@@ -596,7 +597,7 @@ def run_dora_requests(ctx, exe, ids, reqs, singles):
             for r in batch:
                 args += argv_of(r)
             try:
-                p = subprocess.run([exe] + args, capture_output=True, text=True, errors="replace", env=env, timeout=120)
+                p = subprocess.run([exe] + args, capture_output=True, text=True, errors="replace", env=env, timeout=600)
                 rc, out, err = p.returncode, p.stdout, p.stderr
             except subprocess.TimeoutExpired as e:
                 rc, out, err = "timeout", (e.stdout or b"").decode(errors="replace") if isinstance(e.stdout, bytes) else (e.stdout or ""), ""
